@@ -4,7 +4,13 @@
 
 package sbi
 
-import "github.com/gin-gonic/gin"
+import (
+	"github.com/gin-gonic/gin"
+
+	chf_context "github.com/free5gc/chf/internal/context"
+	"github.com/free5gc/chf/internal/sbi/processor"
+	"github.com/free5gc/chf/pkg/factory"
+)
 
 // ghost view of the response written through gin (updated by the assumed contracts of gin.Context)
 var ghostHttpStatus int
@@ -41,3 +47,43 @@ func verif_guarded(g *gin.RouterGroup) bool { return true }
 // only read for the https scheme, for which validation demands the tls section.
 //@ func (*Server).startServer [C20]
 //@   requires s != nil && s.ServerChf != nil && s.httpServer != nil && wg != nil
+
+// ---- request decoding (C11) -----------------------------------------------------------------------
+
+// specEnvOK: the environment the processor handlers are specified under (validated configuration,
+// ABMF and rating configuration present)
+func specEnvOK() bool {
+	return factory.SpecValidated(factory.ChfConfig) &&
+		chf_context.GetSelf().AbmfCfg != nil && chf_context.GetSelf().RatingCfg != nil
+}
+
+// specAnswers: responses written so far, by the route itself or by the processor handler it calls
+func specAnswers() int { return ghostHttpWrites + processor.SpecGhostWrites() }
+
+func specWritesOK() bool {
+	return ghostHttpWrites >= 0 && ghostHttpWrites < 1<<40 &&
+		processor.SpecGhostWrites() >= 0 && processor.SpecGhostWrites() < 1<<40
+}
+
+// The three charging routes: a body that cannot be read is answered 500 (an I/O failure, not a request
+// content), a body that does not deserialize is answered 400 with a problem body, every other request is
+// handed to the processor handler (checked against its contract: it answers exactly once); so every
+// request gets exactly one answer, and nothing panics. openapi.Deserialize itself is an assumed contract
+// (any value of the request type, any error).
+//@ func (*Server).ChargingdataPost [C11]
+//@   entry
+//@   requires s != nil && s.ServerChf != nil && c != nil && specWritesOK()
+//@   ensures specAnswers() == old(specAnswers())+1
+//@   ensures ghostHttpWrites == old(ghostHttpWrites)+1 ==> (ghostHttpStatus == 400 || ghostHttpStatus == 500) && ghostHttpBody
+//@ func (*Server).ChargingdataChargingDataRefUpdatePost [C11]
+//@   entry
+//@   requires s != nil && s.ServerChf != nil && c != nil && specWritesOK()
+//@   requires [C20] specEnvOK()
+//@   ensures specAnswers() == old(specAnswers())+1
+//@   ensures ghostHttpWrites == old(ghostHttpWrites)+1 ==> (ghostHttpStatus == 400 || ghostHttpStatus == 500) && ghostHttpBody
+//@ func (*Server).ChargingdataChargingDataRefReleasePost [C11]
+//@   entry
+//@   requires s != nil && s.ServerChf != nil && c != nil && specWritesOK()
+//@   requires [C20] specEnvOK()
+//@   ensures specAnswers() == old(specAnswers())+1
+//@   ensures ghostHttpWrites == old(ghostHttpWrites)+1 ==> (ghostHttpStatus == 400 || ghostHttpStatus == 500) && ghostHttpBody
